@@ -469,5 +469,7 @@ func main() {
 	c.Set("rule", "alphabet: one valid instance per (decoder, tag) built with the harness's own CBOR writer; bound: tagged list's array header in all 6 forms x first element in {minimal, next wider} (thorough: every width, and on top of each every other header of the instance in every alternative form, one at a time); distinct = (decoder, tag, outer form, first-element form); oracle: own reader's tag -> own table's variant label, decode error acceptable, any other variant or a wrong DecodeIdFromList result is a violation")
 	c.Assume("fxamacker/cbor well-formedness checking is not under test; the harness's own reader decides what the first element is")
 	c.Assume("for ledger/error.go the tag->constructor table is the documented numbering of the ledger rules as transcribed in this harness (no cardano-ledger sources are available offline); payload shapes are the ones the repository's structs accept")
+	// free-running -race pass: concurrent callers on their own inputs (state the library shares between calls)
+	c.RaceAudit("c03")
 	c.Finish()
 }
